@@ -858,7 +858,7 @@ class DateTimeNode(syntax.SyntaxNode):
     def __init__(self, fieldname, dt, boost=1.0):
         self.fieldname = fieldname
         self.dt = dt
-        self.boost = 1.0
+        self.boost = boost
 
     def r(self):
         return repr(self.dt)
@@ -887,7 +887,7 @@ class DateRangeNode(syntax.SyntaxNode):
         self.fieldname = fieldname
         self.start = start
         self.end = end
-        self.boost = 1.0
+        self.boost = boost
 
     def r(self):
         return "%r-%r" % (self.start, self.end)
